@@ -127,12 +127,13 @@ def one_to_one(ctx) -> None:
     fv = ctx.fv(v)
     w = v.where()
     # which locals hold the converted tips / flattened wells ?
-    rets = [n for n in fv.cfg.nodes if n.kind == "stmt" and isinstance(n.ast, ast.Return) and isinstance(n.ast.value, ast.Tuple)]
-    if len(rets) != 1 or len(rets[0].ast.value.elts) != 5:
+    rets = [fv.def_expr(n.ast.value, n.id)[0] for n in fv.return_nodes()]
+    rets = [r for r in rets if isinstance(r, ast.Tuple)]
+    if len(rets) != 1 or len(rets[0].elts) != 5:
         ctx.rep.inconclusive(rule, v.qualname, "validator does not return the 5-tuple (wells, position, volumes, liquid class, tips)")
         return
-    wells_var = getattr(rets[0].ast.value.elts[0], "id", None)
-    tips_var = getattr(rets[0].ast.value.elts[4], "id", None)
+    wells_var = getattr(rets[0].elts[0], "id", None)
+    tips_var = getattr(rets[0].elts[4], "id", None)
     for what, names in (("tips", {tips_var, "tips"}), ("wells", {wells_var, "wells"})):
         ok, weak = _strict_guard(fv, names - {None})
         ctx.rep.check(ok, rule, f"{v.qualname}/ascending-{what}", f"{what} that are not strictly ascending raise ValueError",
@@ -156,7 +157,7 @@ def one_to_one(ctx) -> None:
             core, p = test, pol
             while isinstance(core, ast.UnaryOp) and isinstance(core.op, ast.Not):
                 core, p = core.operand, not p
-            if isinstance(core, ast.Compare) and all(isinstance(o, ast.Eq) for o in core.ops) and not p:
+            if isinstance(core, ast.Compare) and ((all(isinstance(o, ast.Eq) for o in core.ops) and not p) or (len(core.ops) == 1 and isinstance(core.ops[0], ast.NotEq) and p)):
                 if "len(volume)" in txt:
                     vol_len_ok = True
                 else:
@@ -166,6 +167,16 @@ def one_to_one(ctx) -> None:
 
 
 # ------------------------------------------------------------------------- validation table
+def _role(fv, name_node: ast.Name, at: int) -> str:
+    """Canonical role of a compared local: a parameter keeps its name; `a, b = <x>_position/location` gives grid / site."""
+    t = fv.res.resolve(name_node, at)
+    if isinstance(t, ast.Name):
+        return t.id
+    if is_sym(t, "unpack") and isinstance(t.args[0], ast.Name) and ("position" in t.args[0].id or "location" in t.args[0].id) and isinstance(t.args[1], ast.Constant):
+        return ("grid", "site")[t.args[1].value] if t.args[1].value in (0, 1) else name_node.id
+    return name_node.id
+
+
 def _interval_guards(fv):
     """[(var, lo, hi, message, raise class, guard node)] for guards of the shape `not lo <= x <= hi` (inside an Or)."""
     out = []
@@ -188,7 +199,7 @@ def _interval_guards(fv):
                 hi_strict = isinstance(core.ops[1], ast.Lt)
                 if not all(isinstance(o, (ast.Lt, ast.LtE)) for o in core.ops):
                     continue
-                out.append((core.comparators[0].id, lo + (1 if lo_strict else 0), hi - (1 if hi_strict else 0), msg, raise_class(fv, r)[0], n))
+                out.append((_role(fv, core.comparators[0], n.id), lo + (1 if lo_strict else 0), hi - (1 if hi_strict else 0), msg, raise_class(fv, r)[0], n, core.comparators[0].id))
     return out
 
 
@@ -216,8 +227,8 @@ def validation_table(ctx, vname: str) -> None:
     guards = _interval_guards(fv)
     doc = _doc_ranges(v)
     seen: Dict[str, List] = {}
-    for var, lo, hi, msg, cls, n in guards:
-        seen.setdefault(var, []).append((lo, hi, msg, cls, n))
+    for var, lo, hi, msg, cls, n, local in guards:
+        seen.setdefault(var, []).append((lo, hi, msg, cls, n, local))
     want_vars = {"prepare_evo_aspirate_dispense_parameters": {"grid": 1, "site": 1}, "prepare_evo_wash_parameters": {"grid": 2, "site": 2, "waste_vol": 1, "waste_delay": 1, "cleaner_vol": 1, "cleaner_delay": 1, "airgap": 1, "airgap_speed": 1, "retract_speed": 1}}[vname]
     rets = [x for x in fv.cfg.nodes if x.kind == "stmt" and isinstance(x.ast, ast.Return)]
     for var, count in want_vars.items():
@@ -226,7 +237,7 @@ def validation_table(ctx, vname: str) -> None:
         if len(got) < count:
             ctx.rep.refuted(rule, c, f"`{var}` is range-checked {len(got)} time(s), expected {count}: an out-of-range {var} is accepted", where=v.where())
             continue
-        for i, (lo, hi, msg, cls, n) in enumerate(got):
+        for i, (lo, hi, msg, cls, n, local) in enumerate(got):
             cc = c + (f"#{i}" if count > 1 else "")
             w = v.where(n.ast)
             want = RANGES[var]
@@ -242,14 +253,15 @@ def validation_table(ctx, vname: str) -> None:
             ctx.rep.check(ok_dom, rule, cc + "/every-path", "the range check lies on every path to the return", "the range check can be bypassed", where=w)
             # int-typed parameters: isinstance(x, int) in the same guard
             tst = n.ast
-            typed = any(isinstance(s, ast.Call) and call_fname(s) == "isinstance" and is_name(s.args[0], var) for s in ast.walk(tst))
+            typed = any(isinstance(s, ast.Call) and call_fname(s) == "isinstance" and is_name(s.args[0], local) for s in ast.walk(tst))
             ctx.rep.check(typed, rule, cc + "/type", f"{var} is type-checked in the same guard", f"`{var}` is range-checked without a type check (a float/str prints differently in the command)", where=w)
     # site is emitted zero-based: (grid, site - 1)
     n_zero = 0
     for x in fv.cfg.nodes:
         if x.kind == "stmt" and isinstance(x.ast, ast.Assign) and isinstance(x.ast.value, ast.Tuple) and len(x.ast.value.elts) == 2 and isinstance(x.ast.targets[0], ast.Name) and ("position" in x.ast.targets[0].id or "location" in x.ast.targets[0].id):
             a, b = x.ast.value.elts
-            ok = is_name(a, "grid") and to_poly(b) == Poly.symbol(ast.Name(id="site", ctx=ast.Load())) - Poly.const(1)
+            site_names = [s for s in ast.walk(b) if isinstance(s, ast.Name)]
+            ok = isinstance(a, ast.Name) and _role(fv, a, x.id) == "grid" and len(site_names) == 1 and _role(fv, site_names[0], x.id) == "site" and to_poly(b) == Poly.symbol(site_names[0]) - Poly.const(1)
             n_zero += 1
             ctx.rep.check(ok, rule, f"{v.qualname}/{x.ast.targets[0].id}", "emitted as (grid, site - 1)", f"`{stmt_key(x.ast)}`: the site must be emitted zero-based as (grid, site - 1)", where=v.where(x.ast))
     ctx.rep.floor(rule, f"zero-based site conversions in {vname}", n_zero, 1 if "aspirate" in vname else 2)
@@ -326,13 +338,13 @@ def asp_template(ctx, name: str) -> None:
     if f is None:
         raise AnalysisInconclusive(rule, name, "formatter not found")
     fv = ctx.fv(f)
-    rets = [n for n in fv.cfg.nodes if n.kind == "stmt" and isinstance(n.ast, ast.Return) and isinstance(n.ast.value, ast.JoinedStr)]
+    rets = fv.template_returns()
     if len(rets) != 1:
         ctx.rep.inconclusive(rule, f.qualname, "command template not found")
         return
     rn = rets[0]
     w = f.where(rn.ast)
-    parts = template_parts(rn.ast.value)
+    parts = template_parts(rn.value)
     cmd = "Aspirate" if name == "evo_aspirate" else "Dispense"
     sk = _skeleton(parts)
     ctx.rep.check(sk == ASP_SKELETON % cmd, rule, f"{f.qualname}/skeleton", f"command skeleton is B;{cmd}(mask,\"lc\",<8 slots>0,0,0,0,grid,site,1,\"selection\",0,arm);",
@@ -388,11 +400,14 @@ def asp_template(ctx, name: str) -> None:
     v = ctx.prog.func(val_name)
     if v is not None and name == "evo_aspirate":
         vv = ctx.fv(v)
-        for rnode in [x for x in vv.cfg.nodes if x.kind == "stmt" and isinstance(x.ast, ast.Return) and isinstance(x.ast.value, ast.Tuple)]:
-            names = [getattr(e, "id", "?") for e in rnode.ast.value.elts]
+        for rnode in vv.return_nodes():
+            rtuple, rat = vv.def_expr(rnode.ast.value, rnode.id)
+            if not isinstance(rtuple, ast.Tuple):
+                continue
+            names = [getattr(e, "id", "?") for e in rtuple.elts]
             ok = len(names) == 5 and "well" in names[0] and "position" in names[1] and "vol" in names[2] and names[3] == "liquid_class" and "tip" in names[4]
             ctx.rep.check(ok, rule, f"{v.qualname}/return-order", "validator returns (wells, position, volumes, liquid class, tips)", f"validator returns {names}", where=v.where(rnode.ast))
-            vol = vv.res.resolve(rnode.ast.value.elts[2], rnode.id)
+            vol = vv.res.resolve(rtuple.elts[2], rat)
             two = isinstance(vol, ast.Call) and call_fname(vol) == "tolist" and isinstance(vol.func.value, ast.Call) and call_fname(vol.func.value) in ("round", "around")
             ctx.rep.check(two, rule, f"{v.qualname}/volume-rounding", "volumes are rounded to two decimals", f"returned volumes are `{show(vol)[:60]}`", where=v.where(rnode.ast))
 
@@ -403,13 +418,13 @@ def wash_template(ctx) -> None:
     if f is None:
         raise AnalysisInconclusive(rule, "evo_wash", "formatter not found")
     fv = ctx.fv(f)
-    rets = [n for n in fv.cfg.nodes if n.kind == "stmt" and isinstance(n.ast, ast.Return) and isinstance(n.ast.value, ast.JoinedStr)]
+    rets = fv.template_returns()
     if len(rets) != 1:
         ctx.rep.inconclusive(rule, f.qualname, "command template not found")
         return
     rn = rets[0]
     w = f.where(rn.ast)
-    parts = template_parts(rn.ast.value)
+    parts = template_parts(rn.value)
     sk = _skeleton(parts)
     ctx.rep.check(sk == WASH_SKELETON, rule, f"{f.qualname}/skeleton", "wash command skeleton matches the EVOware parameter order",
                   f"command skeleton is `{sk.replace(chr(0), '{}')}`; expected `{WASH_SKELETON.replace(chr(0), '{}')}`", where=w)
@@ -436,8 +451,11 @@ def wash_template(ctx) -> None:
     v = ctx.prog.func("prepare_evo_wash_parameters")
     if v is not None:
         vv = ctx.fv(v)
-        for rnode in [x for x in vv.cfg.nodes if x.kind == "stmt" and isinstance(x.ast, ast.Return) and isinstance(x.ast.value, ast.Tuple)]:
-            elts = rnode.ast.value.elts
+        for rnode in vv.return_nodes():
+            rtuple, rat = vv.def_expr(rnode.ast.value, rnode.id)
+            if not isinstance(rtuple, ast.Tuple):
+                continue
+            elts = rtuple.elts
             names = [getattr(e, "id", "?") for e in elts]
             ok = len(names) == 13 and all(n == wname or (i == 0 and "tip" in n) for i, (n, wname) in enumerate(zip(names, WASH_ORDER)))
             ctx.rep.check(ok, rule, f"{v.qualname}/return-order", "validator returns its parameters in the documented order", f"validator returns {names}", where=v.where(rnode.ast))
